@@ -16,13 +16,27 @@ mod verif_proofs {
 
     /// shared body: strictly increasing symbolic user values for the concrete `design` shape
     fn converter_facts<const N: usize>(design: [f64; N], default_idx: usize) {
+        let mut order = [0usize; N];
+        let mut i = 0;
+        while i < N { order[i] = i; i += 1; }
+        converter_facts_listed(design, default_idx, order);
+    }
+
+    /// `design`/`default_idx` describe the axis in ascending order; `order` is the order in which the mapping
+    /// points are LISTED in the source (CoordConverter::new must not depend on it)
+    fn converter_facts_listed<const N: usize>(design: [f64; N], default_idx: usize, order: [usize; N]) {
         let mut u = [0.0f64; N];
         let mut i = 0;
         while i < N { u[i] = g(); if i > 0 { vk::assume(u[i - 1] < u[i]); } i += 1; }
         let mut mappings = Vec::new();
+        let mut listed_default = 0;
         i = 0;
-        while i < N { mappings.push((UserCoord::new(u[i]), DesignCoord::new(design[i]))); i += 1; }
-        let c = CoordConverter::new(mappings, default_idx).unwrap();
+        while i < N {
+            mappings.push((UserCoord::new(u[order[i]]), DesignCoord::new(design[order[i]])));
+            if order[i] == default_idx { listed_default = i; }
+            i += 1;
+        }
+        let c = CoordConverter::new(mappings, listed_default).unwrap();
         let (mut dmin, mut dmax) = (design[0], design[0]);
         i = 0;
         while i < N { if design[i] < dmin { dmin = design[i]; } if design[i] > dmax { dmax = design[i]; } i += 1; }
@@ -84,7 +98,16 @@ mod verif_proofs {
     #[cfg_attr(kani, kani::unwind(6))]
     pub(super) fn c08_conv_1node() { converter_facts([5.0], 0); }
 
-    /// user -> design -> user returns the node (design values strictly increasing)
+    // mapping points listed out of ascending order (default first, as Glyphs sources with the regular master first do)
+    #[cfg_attr(kani, kani::proof)]
+    #[cfg_attr(kani, kani::unwind(6))]
+    pub(super) fn c08_conv_3nodes_listed_default_first() { converter_facts_listed([100.0, 400.0, 900.0], 1, [1, 0, 2]); }
+
+    #[cfg_attr(kani, kani::proof)]
+    #[cfg_attr(kani, kani::unwind(6))]
+    pub(super) fn c08_conv_3nodes_listed_descending() { converter_facts_listed([-0.5, 12.25, 100.0], 0, [2, 1, 0]); }
+
+    /// user -> design -> user returns the node (design values strictly increasing); one symbolic node index per run
     #[cfg_attr(kani, kani::proof)]
     #[cfg_attr(kani, kani::unwind(6))]
     pub(super) fn c08_conv_user_design_roundtrip_nodes() {
@@ -93,56 +116,81 @@ mod verif_proofs {
         let d = [100.0, 400.0, 900.0];
         let c = CoordConverter::new(vec![
             (UserCoord::new(u[0]), DesignCoord::new(d[0])), (UserCoord::new(u[1]), DesignCoord::new(d[1])), (UserCoord::new(u[2]), DesignCoord::new(d[2]))], 1).unwrap();
-        let mut i = 0;
-        while i < 3 {
-            assert!(UserCoord::new(u[i]).to_design(&c).to_user(&c).to_f64() == u[i], "VK_ASSERT user_design_user_roundtrip_at_nodes");
-            assert!(DesignCoord::new(d[i]).to_user(&c).to_f64() == u[i], "VK_ASSERT design_node_maps_back_to_user_node");
-            i += 1;
-        }
-        assert!(NormalizedCoord::new(-1.0).to_user(&c).to_f64() == u[0] && NormalizedCoord::new(1.0).to_user(&c).to_f64() == u[2], "VK_ASSERT extremes_denormalize_to_user_extremes");
-        // default index out of bounds is an error, not a panic
+        let i = vk::any_u8_in(0, 2) as usize;
+        assert!(UserCoord::new(u[i]).to_design(&c).to_user(&c).to_f64() == u[i], "VK_ASSERT user_design_user_roundtrip_at_nodes");
+        vk_cover!(i == 2 && u[0] < 0.0 && u[2] > 0.0, "last node, user range straddles zero");
+        std::mem::forget(c);
+    }
+
+    /// -1 / 0 / +1 denormalize to the user minimum / default / maximum; a default index out of bounds is an error
+    #[cfg_attr(kani, kani::proof)]
+    #[cfg_attr(kani, kani::unwind(6))]
+    pub(super) fn c08_conv_denormalize_extremes() {
+        let u = [g(), g(), g()];
+        vk::assume(u[0] < u[1] && u[1] < u[2]);
+        let c = CoordConverter::new(vec![
+            (UserCoord::new(u[0]), DesignCoord::new(100.0)), (UserCoord::new(u[1]), DesignCoord::new(400.0)), (UserCoord::new(u[2]), DesignCoord::new(900.0))], 1).unwrap();
+        assert!(NormalizedCoord::new(-1.0).to_user(&c).to_f64() == u[0], "VK_ASSERT normalized_extremes_denormalize_to_user_nodes");
+        assert!(NormalizedCoord::new(0.0).to_user(&c).to_f64() == u[1], "VK_ASSERT normalized_extremes_denormalize_to_user_nodes");
+        assert!(NormalizedCoord::new(1.0).to_user(&c).to_f64() == u[2], "VK_ASSERT normalized_extremes_denormalize_to_user_nodes");
         assert!(CoordConverter::new(vec![(UserCoord::new(u[0]), DesignCoord::new(1.0))], 1).is_err(), "VK_ASSERT default_out_of_bounds_is_an_error");
         vk_cover!(u[0] < 0.0 && u[2] > 0.0, "user range straddles zero");
         std::mem::forget(c);
     }
 
-    /// default_normalization(min, default, max): min/default/max -> -1/0/+1, whichever of them coincide
-    #[cfg_attr(kani, kani::proof)]
-    #[cfg_attr(kani, kani::unwind(6))]
-    pub(super) fn c08_default_normalization() {
-        let (mn, df, mx) = (g(), g(), g());
-        vk::assume(mn <= df && df <= mx);
+    /// a wide quarter-step grid for probes against concrete axis triples
+    fn wide() -> f64 { let k = vk::any_i16(); vk::assume(k >= -4200 && k <= 4200); k as f64 / 4.0 }
+
+    /// default_normalization(min, default, max) on a catalog of concrete triples (every coincidence case), probe symbolic:
+    /// min/default/max -> -1/0/+1, in-range probe in [-1,1] with the sign of (x - default), monotone hull
+    fn default_norm_facts(mn: f64, df: f64, mx: f64) {
         let c = CoordConverter::default_normalization(UserCoord::new(mn), UserCoord::new(df), UserCoord::new(mx));
         assert!(UserCoord::new(df).to_normalized(&c).to_f64() == 0.0, "VK_ASSERT default_normalizes_to_zero");
         if mn < df { assert!(UserCoord::new(mn).to_normalized(&c).to_f64() == -1.0, "VK_ASSERT user_min_normalizes_to_minus_one"); }
         if mx > df { assert!(UserCoord::new(mx).to_normalized(&c).to_f64() == 1.0, "VK_ASSERT user_max_normalizes_to_plus_one"); }
-        let x = g();
+        let x = wide();
         vk::assume(x >= mn && x <= mx);
         let n = UserCoord::new(x).to_normalized(&c).to_f64();
         assert!(n >= -1.0 && n <= 1.0, "VK_ASSERT in_range_user_value_normalizes_into_unit_range");
         if x < df { assert!(n < 0.0, "VK_ASSERT below_default_is_negative"); }
         if x > df { assert!(n > 0.0, "VK_ASSERT above_default_is_positive"); }
-        vk_cover!(mn < df && df < mx && x > mn && x < df, "three distinct nodes, probe inside");
-        vk_cover!(mn == df && df < mx, "default at minimum");
-        vk_cover!(mn == df && df == mx, "point axis");
+        vk_cover!(mn == mx || (x != mn && x != df && x != mx), "probe strictly between nodes");
         std::mem::forget(c);
     }
-
-    /// unmapped(min, default, max): identity user<->design, same normalization facts
     #[cfg_attr(kani, kani::proof)]
     #[cfg_attr(kani, kani::unwind(6))]
-    pub(super) fn c08_unmapped() {
-        let (mn, df, mx) = (g(), g(), g());
-        vk::assume(mn <= df && df <= mx);
+    pub(super) fn c08_default_normalization_3distinct() { default_norm_facts(300.0, 400.0, 700.0); }
+    #[cfg_attr(kani, kani::proof)]
+    #[cfg_attr(kani, kani::unwind(6))]
+    pub(super) fn c08_default_normalization_default_at_min() { default_norm_facts(0.0, 0.0, 1.0); }
+    #[cfg_attr(kani, kani::proof)]
+    #[cfg_attr(kani, kani::unwind(6))]
+    pub(super) fn c08_default_normalization_default_at_max() { default_norm_facts(-12.5, 1000.0, 1000.0); }
+    #[cfg_attr(kani, kani::proof)]
+    #[cfg_attr(kani, kani::unwind(6))]
+    pub(super) fn c08_default_normalization_point_axis() { default_norm_facts(5.0, 5.0, 5.0); }
+
+    /// unmapped(min, default, max): identity user<->design and the same normalization facts
+    fn unmapped_facts(mn: f64, df: f64, mx: f64) {
         let c = CoordConverter::unmapped(UserCoord::new(mn), UserCoord::new(df), UserCoord::new(mx));
         assert!(UserCoord::new(df).to_normalized(&c).to_f64() == 0.0, "VK_ASSERT default_normalizes_to_zero");
-        assert!(UserCoord::new(df).to_design(&c).to_f64() == df, "VK_ASSERT unmapped_is_identity_at_default");
         if mn < df { assert!(UserCoord::new(mn).to_normalized(&c).to_f64() == -1.0, "VK_ASSERT user_min_normalizes_to_minus_one"); }
         if mx > df { assert!(UserCoord::new(mx).to_normalized(&c).to_f64() == 1.0, "VK_ASSERT user_max_normalizes_to_plus_one"); }
-        vk_cover!(mn < df && df < mx, "three distinct nodes");
-        vk_cover!(mn < df && df == mx, "default at maximum");
+        let x = wide();
+        vk::assume(x >= mn && x <= mx);
+        // identity up to float rounding of the lerp (a + t*(b-a) is not exact in f64: 252.25 -> 252.24999999999997)
+        let y = UserCoord::new(x).to_design(&c).to_f64();
+        assert!((y - x).abs() <= 1.0e-9, "VK_ASSERT unmapped_is_identity_inside_the_range");
+        if x == mn || x == df || x == mx { assert!(y == x, "VK_ASSERT unmapped_is_exact_at_nodes"); }
+        vk_cover!(mn == mx || (x != mn && x != df && x != mx), "probe strictly between nodes");
         std::mem::forget(c);
     }
+    #[cfg_attr(kani, kani::proof)]
+    #[cfg_attr(kani, kani::unwind(6))]
+    pub(super) fn c08_unmapped_3distinct() { unmapped_facts(100.0, 400.0, 900.0); }
+    #[cfg_attr(kani, kani::proof)]
+    #[cfg_attr(kani, kani::unwind(6))]
+    pub(super) fn c08_unmapped_default_at_max() { unmapped_facts(0.0, 1.0, 1.0); }
 
     /// normalized grid values survive the 2.14 conversion exactly (what fvar/avar/regions store)
     #[cfg_attr(kani, kani::proof)]
